@@ -277,6 +277,13 @@ def cases(M):
             lo, hi = sorted(((t + ob) * US, (t + oa) * US))
             if not ((lo // DAY_US != (hi - 1) // DAY_US) or lo % DAY_US == 0 or hi % DAY_US == 0):
                 continue
+            if oa > ob and hi % DAY_US == 0 and us_to_fields(hi)[2] == 1:
+                # the last day of a month lost its last hour(s): instances elsewhere in that quarter / year whose time of day
+                # lies in the skipped span and whose day of month is at or beyond that month's length
+                gf = us_to_fields(lo)
+                for mo2 in range(1, 13):
+                    yield {"k": "anchor", "zn": zn, "ti": i, "y": gf[0], "mo": mo2, "d": r.choice((28, 29, 30, 31)),
+                           "tod": lo % DAY_US + r.randrange(max(1, hi - lo))}
             day_us = (hi // DAY_US) * DAY_US    # the local date whose midnight is affected
             for back in ((1, 3, 6, 8, 20) if thorough else (r.choice((1, 2, 3)), r.choice((6, 8, 20)))):
                 yield {"k": "trans", "zn": zn, "ti": i, "target_wall": day_us, "back": back, "tod": r.randrange(DAY_US),
@@ -330,6 +337,27 @@ def run(M, c):
         for unit in ("month", "quarter", "year"):
             _quiet(x.first_of, unit)
             _quiet(x.last_of, unit)
+        return
+    if c.get("k") == "anchor":
+        from pvmon.props import c02
+
+        y, mo = c["y"], c["mo"]
+        d = min(c["d"], calendar.monthrange(y, mo)[1])
+        H = us_to_fields(c["tod"])[3:]
+        exp, cls_ = c02.expect(("iana", c["zn"]), wall_us(dt.datetime(y, mo, d, *H)), 1, False)
+        if exp[0] != "value":
+            return
+        x = gen.mk(c["zn"], exp[1])
+        M.cls("anchor", c["zn"], c["ti"], mo)
+        M.sample(c)
+        for unit in ("quarter", "year", "month"):
+            _quiet(x.first_of, unit)
+            _quiet(x.last_of, unit)
+            for wd in (0, 3, 6):
+                _quiet(x.first_of, unit, P.WeekDay(wd))
+                _quiet(x.last_of, unit, P.WeekDay(wd))
+                _quiet(x.nth_of, unit, 1, P.WeekDay(wd))
+                _quiet(x.nth_of, unit, 2, P.WeekDay(wd))
         return
     if c.get("k") == "edge":
         # the first and last week of the representable range (Date): the answer either exists and must be returned, or lies
